@@ -415,6 +415,24 @@ func runC19(c *Ctx) {
 					y.Hi ^= 1 << 63
 				}
 			}
+			if i%5 == 1 {
+				// y = x +/- one non-zero digit at some position, written in a finer cohort member:
+				// comparisons and differences must not depend on which encodings are used
+				xn := ref.Decode(x)
+				if xn.Class == ref.Finite && !xn.IsZero() {
+					g := r.Range(1, 33)
+					cy := new(big.Int).Mul(xn.Coef, ref.Pow10(g))
+					d := new(big.Int).Mul(big.NewInt(int64(r.Range(1, 9))), ref.Pow10(r.Intn(g)))
+					if r.Bool() {
+						cy.Add(cy, d)
+					} else {
+						cy.Sub(cy, d)
+					}
+					if cy.Sign() > 0 && cy.Cmp(ref.Cmax) <= 0 && xn.Exp-g >= ref.MinExp {
+						y = ref.Encode(xn.Neg, cy, xn.Exp-g)
+					}
+				}
+			}
 			a := [2]ref.Bits{x, y}
 			b := [2]ref.Bits{altEncoding(r, x), altEncoding(r, y)}
 			if i%3 == 0 {
